@@ -77,3 +77,51 @@ package driver
 //@ func NewMemory
 //@   props C10
 //@   ensures result != nil && fresh(result)
+
+// ---- label bookkeeping of stored objects (secrets.go, cfgmaps.go, labels.go): C10, C01
+
+//@ func (*labels).init
+//@   props C10
+//@   requires lbs != nil
+//@   ensures *lbs != nil && fresh(*lbs) && (forall k string :: !has(*lbs, k))
+
+//@ func labels.set
+//@   props C10
+//@   requires lbs != nil
+//@   ensures has(lbs, key) && lbs[key] == val
+//@   ensures forall k string :: k != key ==> has(lbs, k) == old(has(lbs, k)) && lbs[k] == old(lbs[k])
+//@   ensures forall m gomap[string]string, k string :: m != lbs ==> has(m, k) == old(has(m, k)) && m[k] == old(m[k])
+
+//@ func (*labels).fromMap
+//@   props C10
+//@   requires lbs != nil && *lbs != nil && *lbs != kvs
+//@   ensures [copied] forall k string :: has(kvs, k) ==> has(*lbs, k) && (*lbs)[k] == kvs[k]
+//@   ensures [kept] forall k string :: !has(kvs, k) ==> has(*lbs, k) == old(has(*lbs, k)) && (*lbs)[k] == old((*lbs)[k])
+//@   ensures [same-map] *lbs == old(*lbs)
+//@   ensures [others-untouched] forall m gomap[string]string, k string :: m != *lbs ==> has(m, k) == old(has(m, k)) && m[k] == old(m[k])
+//@   loop 1 invariant *lbs == old(*lbs)
+//@   loop 1 invariant forall k string :: #done[k] ==> has(*lbs, k) && (*lbs)[k] == kvs[k] && has(kvs, k)
+//@   loop 1 invariant forall k string :: !#done[k] ==> has(*lbs, k) == old(has(*lbs, k)) && (*lbs)[k] == old((*lbs)[k])
+//@   loop 1 invariant forall m gomap[string]string, k string :: m != *lbs ==> has(m, k) == old(has(m, k)) && m[k] == old(m[k])
+
+//@ ghost func systemLabelsOf(l gomap[string]string, rls *rspb.Release) bool = has(l, "name") && l["name"] == rls.Name && has(l, "owner") && l["owner"] == "helm" && has(l, "status") && l["status"] == rls.Info.Status && has(l, "version") && l["version"] == itoa(rls.Version)
+//@ ghost func isSystemKey(k string) bool = k == "name" || k == "owner" || k == "status" || k == "version"
+
+//@ func newSecretsObject
+//@   props C10 C01
+//@   requires rls != nil && rls.Info != nil && (lbs == nil || lbs != rls.Labels)
+//@   ensures [key] err == nil ==> result != nil && result.ObjectMeta.Name == key
+//@   ensures [system-labels-win] err == nil ==> systemLabelsOf(result.ObjectMeta.Labels, rls)
+//@   ensures [user-labels-kept] err == nil ==> forall k string :: has(rls.Labels, k) && !isSystemKey(k) ==> has(result.ObjectMeta.Labels, k) && result.ObjectMeta.Labels[k] == rls.Labels[k]
+
+//@ func newConfigMapsObject
+//@   props C10 C01
+//@   requires rls != nil && rls.Info != nil && (lbs == nil || lbs != rls.Labels)
+//@   ensures [key] err == nil ==> result != nil && result.ObjectMeta.Name == key
+//@   ensures [system-labels-win] err == nil ==> systemLabelsOf(result.ObjectMeta.Labels, rls)
+//@   ensures [user-labels-kept] err == nil ==> forall k string :: has(rls.Labels, k) && !isSystemKey(k) ==> has(result.ObjectMeta.Labels, k) && result.ObjectMeta.Labels[k] == rls.Labels[k]
+
+//@ func labels.toMap
+//@   props C10
+//@   pure
+//@   ensures result == lbs
